@@ -227,9 +227,13 @@ func validateFromStdin(cmd *cobra.Command) error {
 		return err
 	}
 
-	// Update result to show "stdin" instead of temp file path
-	// The validation has already output results with temp file path
-	// Different output formats are handled below
+	// Update result to show "stdin" instead of temp file path: the reports
+	// name the input the user gave, not the scratch file it was copied to
+	for i := range result.Files {
+		if result.Files[i].Path == tmpFile.Name() {
+			result.Files[i].Path = "stdin"
+		}
+	}
 
 	// Handle different output formats
 	switch validateOutputFormat {
